@@ -419,7 +419,9 @@ def check(chk):
                         terms_ne.add(t_.replace("!=", "=="))
             is_and = isinstance(inner, ast.BoolOp) and isinstance(inner.op, ast.And)
             is_or = isinstance(inner, ast.BoolOp) and isinstance(inner.op, ast.Or)
-        need = {"%s.state==state" % ev_, "%s.ms==ms" % ev_, "%s.callback==callback" % ev_}
+        from sa.model import canon_eq
+        need = {canon_eq("%s.state" % ev_, "state").replace(" ", ""), canon_eq("%s.ms" % ev_, "ms").replace(" ", ""),
+                canon_eq("%s.callback" % ev_, "callback").replace(" ", "")}
         ok = src(comp.elt) == ev_ and ((negated and is_and and need <= terms_eq) or (not negated and is_or and need <= terms_ne))
         rebuilt.append(n)
         chk.ob("PAIR-3", "the rebuilt timed list keeps exactly the entries that do not match (state, ms, callback)", ok, f.where(n.ast),
@@ -427,7 +429,8 @@ def check(chk):
     chk.ob("PAIR-3", "remove also purges an armed timed record", bool(tdel) or bool(rebuilt), f.where(), construct=f.ident, text="timed purge present")
     for n in tdel:
         g = cfg.guards_at(n.id)
-        need = ("entry.state==state", "entry.ms==ms", "entry.callback==callback")
+        from sa.model import canon_eq
+        need = tuple(canon_eq(a_, b_).replace(" ", "") for a_, b_ in (("entry.state", "state"), ("entry.ms", "ms"), ("entry.callback", "callback")))
         ok = all(any(k.replace(" ", "") == nd and v is True for k, v in g.items()) for nd in need)
         chk.ob("PAIR-3", "the armed record is matched on (state, ms, callback)", ok, f.where(n.ast), detail="guards %s" % sorted(g.items()),
                construct=f.ident, text="timed purge match")
